@@ -163,8 +163,102 @@ pub mod shim {
             forall|x: u32| #[trigger] (x & 0x40) == 0 || (x & 0x40) == 0x40,
             forall|x: u32| #[trigger] (x & 0x80) == 0 || (x & 0x80) == 0x80,
             forall|x: u8| (#[trigger] (x & 0x80) == 0x80) == (x >= 128),
+            forall|x: usize| #[trigger] (x & 0xffff) == x % 0x10000,
+            forall|x: usize| #[trigger] (x & 0xff) == x % 256,
+            forall|x: usize| #[trigger] (x >> 8) == x / 256,
+            forall|x: usize| #[trigger] (x >> 16) == x / 65536,
+            forall|x: u64| #[trigger] (x & 0xffff) == x % 0x10000,
+            forall|x: u64| #[trigger] (x & 0xff) == x % 256,
+            forall|x: u16| ((#[trigger] (x >> 0)) & 1 == 1) == (x & 0x1 == 0x1),
+            (1u16 << 0) == 0x1u16,
+            forall|x: u16| ((#[trigger] (x >> 1)) & 1 == 1) == (x & 0x2 == 0x2),
+            (1u16 << 1) == 0x2u16,
+            forall|x: u16| ((#[trigger] (x >> 2)) & 1 == 1) == (x & 0x4 == 0x4),
+            (1u16 << 2) == 0x4u16,
+            forall|x: u16| ((#[trigger] (x >> 3)) & 1 == 1) == (x & 0x8 == 0x8),
+            (1u16 << 3) == 0x8u16,
+            forall|x: u16| ((#[trigger] (x >> 4)) & 1 == 1) == (x & 0x10 == 0x10),
+            (1u16 << 4) == 0x10u16,
+            forall|x: u16| ((#[trigger] (x >> 5)) & 1 == 1) == (x & 0x20 == 0x20),
+            (1u16 << 5) == 0x20u16,
+            forall|x: u16| ((#[trigger] (x >> 6)) & 1 == 1) == (x & 0x40 == 0x40),
+            (1u16 << 6) == 0x40u16,
+            forall|x: u16| ((#[trigger] (x >> 7)) & 1 == 1) == (x & 0x80 == 0x80),
+            (1u16 << 7) == 0x80u16,
+            forall|x: u16| ((#[trigger] (x >> 8)) & 1 == 1) == (x & 0x100 == 0x100),
+            (1u16 << 8) == 0x100u16,
+            forall|x: u16| ((#[trigger] (x >> 9)) & 1 == 1) == (x & 0x200 == 0x200),
+            (1u16 << 9) == 0x200u16,
+            forall|x: u16| ((#[trigger] (x >> 10)) & 1 == 1) == (x & 0x400 == 0x400),
+            (1u16 << 10) == 0x400u16,
+            forall|x: u16| ((#[trigger] (x >> 11)) & 1 == 1) == (x & 0x800 == 0x800),
+            (1u16 << 11) == 0x800u16,
+            forall|x: u16| ((#[trigger] (x >> 12)) & 1 == 1) == (x & 0x1000 == 0x1000),
+            (1u16 << 12) == 0x1000u16,
+            forall|x: u16| ((#[trigger] (x >> 13)) & 1 == 1) == (x & 0x2000 == 0x2000),
+            (1u16 << 13) == 0x2000u16,
+            forall|x: u16| ((#[trigger] (x >> 14)) & 1 == 1) == (x & 0x4000 == 0x4000),
+            (1u16 << 14) == 0x4000u16,
+            forall|x: u16| ((#[trigger] (x >> 15)) & 1 == 1) == (x & 0x8000 == 0x8000),
+            (1u16 << 15) == 0x8000u16,
+            forall|x: u16| ((#[trigger] (x >> 15)) == 1) == (x >= 0x8000),
+            (1u8 << 0) == 0x1u8,
+            (1u8 << 1) == 0x2u8,
+            (1u8 << 2) == 0x4u8,
+            (1u8 << 3) == 0x8u8,
+            (1u8 << 4) == 0x10u8,
+            (1u8 << 5) == 0x20u8,
+            (1u8 << 6) == 0x40u8,
+            (1u8 << 7) == 0x80u8,
             (1usize << 24) == 0x1000000usize, (1u32 << 16) == 0x10000u32, (1u32 << 8) == 0x100u32,
     {
+        assert(forall|x: usize| #[trigger] (x & 0xffff) == x % 0x10000) by(bit_vector);
+        assert(forall|x: usize| #[trigger] (x & 0xff) == x % 256) by(bit_vector);
+        assert(forall|x: usize| #[trigger] (x >> 8) == x / 256) by(bit_vector);
+        assert(forall|x: usize| #[trigger] (x >> 16) == x / 65536) by(bit_vector);
+        assert(forall|x: u64| #[trigger] (x & 0xffff) == x % 0x10000) by(bit_vector);
+        assert(forall|x: u64| #[trigger] (x & 0xff) == x % 256) by(bit_vector);
+        assert(forall|x: u16| ((#[trigger] (x >> 0)) & 1 == 1) == (x & 0x1 == 0x1)) by(bit_vector);
+        assert((1u16 << 0) == 0x1u16) by(bit_vector);
+        assert(forall|x: u16| ((#[trigger] (x >> 1)) & 1 == 1) == (x & 0x2 == 0x2)) by(bit_vector);
+        assert((1u16 << 1) == 0x2u16) by(bit_vector);
+        assert(forall|x: u16| ((#[trigger] (x >> 2)) & 1 == 1) == (x & 0x4 == 0x4)) by(bit_vector);
+        assert((1u16 << 2) == 0x4u16) by(bit_vector);
+        assert(forall|x: u16| ((#[trigger] (x >> 3)) & 1 == 1) == (x & 0x8 == 0x8)) by(bit_vector);
+        assert((1u16 << 3) == 0x8u16) by(bit_vector);
+        assert(forall|x: u16| ((#[trigger] (x >> 4)) & 1 == 1) == (x & 0x10 == 0x10)) by(bit_vector);
+        assert((1u16 << 4) == 0x10u16) by(bit_vector);
+        assert(forall|x: u16| ((#[trigger] (x >> 5)) & 1 == 1) == (x & 0x20 == 0x20)) by(bit_vector);
+        assert((1u16 << 5) == 0x20u16) by(bit_vector);
+        assert(forall|x: u16| ((#[trigger] (x >> 6)) & 1 == 1) == (x & 0x40 == 0x40)) by(bit_vector);
+        assert((1u16 << 6) == 0x40u16) by(bit_vector);
+        assert(forall|x: u16| ((#[trigger] (x >> 7)) & 1 == 1) == (x & 0x80 == 0x80)) by(bit_vector);
+        assert((1u16 << 7) == 0x80u16) by(bit_vector);
+        assert(forall|x: u16| ((#[trigger] (x >> 8)) & 1 == 1) == (x & 0x100 == 0x100)) by(bit_vector);
+        assert((1u16 << 8) == 0x100u16) by(bit_vector);
+        assert(forall|x: u16| ((#[trigger] (x >> 9)) & 1 == 1) == (x & 0x200 == 0x200)) by(bit_vector);
+        assert((1u16 << 9) == 0x200u16) by(bit_vector);
+        assert(forall|x: u16| ((#[trigger] (x >> 10)) & 1 == 1) == (x & 0x400 == 0x400)) by(bit_vector);
+        assert((1u16 << 10) == 0x400u16) by(bit_vector);
+        assert(forall|x: u16| ((#[trigger] (x >> 11)) & 1 == 1) == (x & 0x800 == 0x800)) by(bit_vector);
+        assert((1u16 << 11) == 0x800u16) by(bit_vector);
+        assert(forall|x: u16| ((#[trigger] (x >> 12)) & 1 == 1) == (x & 0x1000 == 0x1000)) by(bit_vector);
+        assert((1u16 << 12) == 0x1000u16) by(bit_vector);
+        assert(forall|x: u16| ((#[trigger] (x >> 13)) & 1 == 1) == (x & 0x2000 == 0x2000)) by(bit_vector);
+        assert((1u16 << 13) == 0x2000u16) by(bit_vector);
+        assert(forall|x: u16| ((#[trigger] (x >> 14)) & 1 == 1) == (x & 0x4000 == 0x4000)) by(bit_vector);
+        assert((1u16 << 14) == 0x4000u16) by(bit_vector);
+        assert(forall|x: u16| ((#[trigger] (x >> 15)) & 1 == 1) == (x & 0x8000 == 0x8000)) by(bit_vector);
+        assert((1u16 << 15) == 0x8000u16) by(bit_vector);
+        assert(forall|x: u16| ((#[trigger] (x >> 15)) == 1) == (x >= 0x8000)) by(bit_vector);
+        assert((1u8 << 0) == 0x1u8) by(bit_vector);
+        assert((1u8 << 1) == 0x2u8) by(bit_vector);
+        assert((1u8 << 2) == 0x4u8) by(bit_vector);
+        assert((1u8 << 3) == 0x8u8) by(bit_vector);
+        assert((1u8 << 4) == 0x10u8) by(bit_vector);
+        assert((1u8 << 5) == 0x20u8) by(bit_vector);
+        assert((1u8 << 6) == 0x40u8) by(bit_vector);
+        assert((1u8 << 7) == 0x80u8) by(bit_vector);
         assert(forall|x: u8| #[trigger] (x & 0x1) == 0 || (x & 0x1) == 0x1) by(bit_vector);
         assert(forall|x: u8| #[trigger] (x & 0x2) == 0 || (x & 0x2) == 0x2) by(bit_vector);
         assert(forall|x: u8| #[trigger] (x & 0x4) == 0 || (x & 0x4) == 0x4) by(bit_vector);
